@@ -52,7 +52,9 @@ META = {
                   "The binding model is CPython's call rule and is validated each run against real calls of "
                   "synthesised functions (exact) and inspect.Signature.bind (which is stricter only for "
                   "positional-only names passed by keyword next to **kwargs). 'No argument silently ignored' "
-                  "is validated by an AST pass + execution, not proved. Uncovered forms of the unchanged tree "
+                  "is validated, not proved: a systematic parameter sweep (every parameter of every substituted "
+                  "function with a testcase, non-default values, positional/keyword/mixed forms, fusion-triggering "
+                  "producers; values and dtypes vs eager JAX) + an AST pass. Uncovered forms of the unchanged tree "
                   "are genuine defects listed in known_findings.d/C19.json keyed by (target, call form).",
     "design_ref": "DESIGN.md §3 C19",
 }
@@ -1292,6 +1294,10 @@ def run_form_checked(pair: dict, args, kwargs, producer: str = "id") -> dict:
         return np.concatenate(out) if out else np.zeros((0,))
 
     g, e = flat(got), flat(exp_leaves)
+    if any(l.dtype.kind in "iu" for l in exp_leaves) and (np.abs(e).max(initial=0) >= 2 ** 31 - 1
+                                                          or np.abs(g).max(initial=0) >= 2 ** 31 - 1):
+        res["numeric"] = "skipped (integer overflow: wrap vs saturate is not specified)"
+        return res
     half = any(l.dtype in (np.dtype(np.float16),) or "bfloat16" in l.dtype.name for l in exp_leaves)
     rtol, atol = (2e-2, 2e-2) if half else (1e-3, 1e-4)
     ok = g.shape == e.shape and bool(np.allclose(g, e, rtol=rtol, atol=atol, equal_nan=True))
